@@ -120,3 +120,22 @@ Definition content_type_input (lines : list bytes) : bytes :=
 (* pmt = mime.ParseMediaType (media type of the answer, None on error) *)
 Definition content_type (pmt : bytes -> option bytes) (lines : list bytes) : option bytes :=
   pmt (content_type_input lines).
+
+(* ---- several requests answered one after the other by ONE Context: an API (default media type, consumers
+   registered) with several operations, each with its own declared consumes list; nothing is carried from one
+   request to the next - the gate of a request is decided by the list of the operation it addresses alone,
+   whichever operations (on the same path or elsewhere) were addressed before ---- *)
+Record greq := mkgreq {
+  gq_declared : list bytes;        (* the consumes list of the operation addressed, as declared *)
+  gq_hasbody : bool;
+  gq_parse : option bytes;
+  gq_reparse : option bytes;
+  gq_typed : bool                  (* entry point: true = BindValidRequest, false = BindAndValidate / the handler *)
+}.
+Definition gate_req (default : bytes) (registered : list bytes) (q : greq) : list nat * option bytes :=
+  let consumes := add_route_consumes (gq_declared q) default in
+  let keys := route_consumers consumes registered in
+  if gq_typed q then gate_typed (gq_hasbody q) (gq_parse q) (gq_reparse q) consumes keys
+  else gate_untyped (gq_hasbody q) (gq_parse q) (gq_reparse q) consumes keys.
+Definition gate_history (default : bytes) (registered : list bytes) (qs : list greq) : list (list nat * option bytes) :=
+  map (gate_req default registered) qs.
